@@ -180,15 +180,11 @@ pub fn inflate(ch: &mut Choices, ag: &mut AG, kind: YKind) {
     ag.stratum.push_str("+inflated");
 }
 
-/// Is this panic one of the documented clean refusals?
+/// Is this panic the documented refusal ("StorageT is not big enough ...", or the lexer's
+/// conversion message that names StorageT)? A bare `assertion failed: ...` is not: the statement
+/// asks for the documented panic.
 fn clean_refusal(p: &PanicInfo) -> bool {
-    if p.msg.contains("StorageT") {
-        return true;
-    }
-    // explicit size assertions of StateGraph::new / StateTable::new
-    (p.file.ends_with("lrtable/src/lib/stategraph.rs") || p.file.ends_with("lrtable/src/lib/statetable.rs"))
-        && p.msg.starts_with("assertion failed")
-        && (p.msg.contains("max_value") || p.msg.contains("usize::MAX"))
+    p.msg.contains("StorageT") && !p.msg.starts_with("assertion failed")
 }
 
 struct WidthResult {
@@ -339,12 +335,11 @@ impl Prop for C20 {
         v
     }
     fn rule(&self) -> String {
-        "Size-boundary families (number of rules, tokens, productions, symbols in one production, LR states, lexer rules) at 250..260 (and random 240..269) for u8 and at 65534..65536 (thorough: 65532..65538, four families) for u16, plus ordinary small grammars as C10 and (1/5) 'inflated' ones: a C10 grammar of any kind (Eco with implicit tokens included) with one or two dimensions blown up to 246..261 - a production whose stored length (tokens count twice with implicit tokens) is 249..261, optionally with a second production longer in the source but shorter when stored, or many rules / productions / tokens; each built with u8, u16 and u32. Oracle: per width the construction completes or panics; a panic is a clean refusal iff its message mentions StorageT or it is one of the explicit size assertions of StateGraph::new/StateTable::new; every completing width reports sizes equal to the number of indices its iterators yield and equal to the u32 build's sizes, has the same digest of every grammar/graph/table query (first up to the canonical breadth-first renaming of states, for a precise signature, then with the implementation's own state numbers) and the same parse results; if a width completes every wider width completes. Evaluation = one (grammar, width). Non-trivial: some count lies within 3 of 255 or 65535, or the grammar is an inflated one; distinct by hash(family,n) / hash(text).".into()
+        "Size-boundary families (number of rules, tokens, productions, symbols in one production, LR states, lexer rules) at 250..260 (and random 240..269) for u8 and at 65534..65536 (thorough: 65532..65538, four families) for u16, plus ordinary small grammars as C10 and (1/5) 'inflated' ones: a C10 grammar of any kind (Eco with implicit tokens included) with one or two dimensions blown up to 246..261 - a production whose stored length (tokens count twice with implicit tokens) is 249..261, optionally with a second production longer in the source but shorter when stored, or many rules / productions / tokens; each built with u8, u16 and u32. Oracle: per width the construction completes or panics; a panic is a clean refusal iff it is the documented one (its message says that StorageT is not big enough; a bare assertion failure is not); every completing width reports sizes equal to the number of indices its iterators yield and equal to the u32 build's sizes, has the same digest of every grammar/graph/table query (first up to the canonical breadth-first renaming of states, for a precise signature, then with the implementation's own state numbers) and the same parse results; if a width completes every wider width completes. Evaluation = one (grammar, width). Non-trivial: some count lies within 3 of 255 or 65535, or the grammar is an inflated one; distinct by hash(family,n) / hash(text).".into()
     }
     fn assumptions(&self) -> Vec<String> {
         vec![
             "for grammars with more than 2000 tokens/rules a cheap summary replaces the full digest (token_idx is linear, the full digest quadratic)".into(),
-            "the explicit size assertions in StateGraph::new and StateTable::new count as the documented refusal".into(),
         ]
     }
     fn required_classes(&self, _tier: Tier) -> Vec<&'static str> {
